@@ -178,7 +178,7 @@ def _install_scans():
                 stats["scans"] += 1
                 sid = f"T{stats['scans']}"
                 fh.write(json.dumps({"k": "proj", "id": sid, "first": True, **listed}, separators=(",", ":")) + "\n")
-                fh.write(json.dumps({"k": "scan", "id": sid, "mpath": mpath, "limit": level_limit or 0, "ext": ext,
+                fh.write(json.dumps({"k": "scan", "id": sid, "mpath": mpath, "limit": 0 if level_limit is None else level_limit + 1, "ext": ext,
                                      "entry": "path", "excl": ex_log, "extexcl": xx_log, "out": out, "err": err, **obs,
                                      "test": os.environ.get("PYTEST_CURRENT_TEST", "")[:200]}, separators=(",", ":")) + "\n")
                 fh.flush()
